@@ -100,7 +100,11 @@ func genWorldKeyed(src *choice.Src, o WOpts, keySeed uint64) *World {
 		w.PreOut = &InFile{Path: w.Out, Content: "// SENTINEL " + fmt.Sprint(src.Draw("sentinel", 1000)) + "\npackage old\n", Mode: []uint32{0644, 0600, 0664, 0755}[src.Draw("premode", 4)]}
 	}
 	if o.LayoutFault && src.Chance("oddout", 1, 6) {
-		switch src.Draw("oddoutk", 4) {
+		switch src.Draw("oddoutk", 6) {
+		case 4, 5:
+			// a symbolic link to an existing regular file that is longer than anything generated here
+			w.OutKind = "symlink"
+			w.PreOut = &InFile{Path: w.Out, Content: strings.Repeat("// SENTINEL old content behind the link\n", 4000) + "package old\n", Mode: 0644}
 		case 0:
 			w.OutKind, w.Out, w.PreOut = "missingdir", "nodir/sub/gen.go", nil
 		case 1:
